@@ -146,7 +146,7 @@ type Collector struct {
 
 func NewCollector(prop, stage, rule string) *Collector {
 	return &Collector{res: Result{Property: prop, Stage: stage, Rule: rule, Dist: map[string]int{}, Extra: map[string]interface{}{}},
-		seen: map[[32]byte]bool{}, sigs: map[string]bool{}, kinds: map[string]int{}, maxV: 24, start: time.Now()}
+		seen: map[[32]byte]bool{}, sigs: map[string]bool{}, kinds: map[string]int{}, maxV: 60, start: time.Now()}
 }
 func (c *Collector) Eval(nontrivialKey string, nontrivial bool, tags ...string) {
 	c.mu.Lock()
@@ -185,6 +185,10 @@ func (c *Collector) Sample(s interface{}) {
 func (c *Collector) Violate(v Violation) {
 	c.mu.Lock()
 	defer c.mu.Unlock()
+	if !c.sigs["all:"+v.Signature] {
+		c.sigs["all:"+v.Signature] = true
+		c.res.Dist["violations:"+v.Kind]++
+	}
 	if c.sigs[v.Signature] || c.kinds[v.Kind] >= 3 {
 		return
 	}
@@ -197,10 +201,16 @@ func (c *Collector) Full() bool {
 	defer c.mu.Unlock()
 	return len(c.res.Violations) >= c.maxV
 }
+// KindFull reports whether enough violations of this kind are recorded; it also counts the
+// occurrence so that the distribution shows the true number of failing cases.
 func (c *Collector) KindFull(kind string) bool {
 	c.mu.Lock()
 	defer c.mu.Unlock()
-	return c.kinds[kind] >= 3
+	if c.kinds[kind] >= 3 {
+		c.res.Dist["violations:"+kind]++
+		return true
+	}
+	return false
 }
 func (c *Collector) Finish() Result {
 	c.res.WallS = time.Since(c.start).Seconds()
